@@ -81,11 +81,23 @@ func record(typ byte, ver uint16, body []byte) []byte {
 // fault builds the transport filter of a case.
 func fault(cs Case32, fired *bool, rtype *int) tlsh.Filter {
 	var mu sync.Mutex
+	seenCCS := [2]bool{}
 	return func(dir, idx int, rec []byte) *tlsh.Action {
 		mu.Lock()
 		defer mu.Unlock()
+		if rec[0] == tlsh.RecCCS {
+			defer func() { seenCCS[dir] = true }()
+		}
 		if dir != cs.Dir || idx != cs.Idx || *fired {
 			return nil
+		}
+		if cs.Kind == "shorten" || cs.Kind == "lengthen" {
+			// message-level corruption with consistent framing: only possible on cleartext
+			// handshake records (one message per record, as zcrypto writes them)
+			if rec[0] != tlsh.RecHandshake || seenCCS[dir] || len(rec) < 9 ||
+				int(rec[6])<<16|int(rec[7])<<8|int(rec[8]) != len(rec)-9 {
+				return nil
+			}
 		}
 		*fired = true
 		*rtype = int(rec[0])
@@ -129,6 +141,23 @@ func fault(cs Case32, fired *bool, rtype *int) tlsh.Filter {
 			}
 			cut := 1 + (n-5-1)*(cs.Pos%5)/5
 			return &tlsh.Action{Deliver: [][]byte{record(rec[0], ver, rec[5:5+cut]), record(rec[0], ver, rec[5+cut:])}}
+		case "shorten", "lengthen":
+			body := rec[9:]
+			if cs.Kind == "shorten" {
+				k := []int{0, 1, 2, 3, len(body) / 2, len(body) - 1}[cs.Pos%6]
+				if k < 0 {
+					k = 0
+				}
+				if k >= len(body) { // nothing to cut: the message stays as it is
+					*fired = false
+					return nil
+				}
+				body = body[:k]
+			} else {
+				body = append(append([]byte(nil), body...), junk(rnd, []int{1, 2, 4, 31, 100, 300}[cs.Pos%6])...)
+			}
+			msg := append([]byte{rec[5], byte(len(body) >> 16), byte(len(body) >> 8), byte(len(body))}, body...)
+			return &tlsh.Action{Deliver: [][]byte{record(rec[0], ver, msg)}}
 		case "garbage":
 			if cs.Sub == "keep-header" {
 				return &tlsh.Action{Deliver: [][]byte{append(append([]byte(nil), rec[:5]...), junk(rnd, n-5)...)}}
@@ -384,7 +413,7 @@ func randomCase(r *rand.Rand, id int) Case32 {
 	if r.Intn(4) == 0 {
 		cs.Auth = 4
 	}
-	kinds := []string{"flip", "flip", "flip", "trunc", "insert", "split", "refrag", "dup", "drop", "close", "garbage", "stream", "stream"}
+	kinds := []string{"flip", "flip", "flip", "trunc", "insert", "split", "refrag", "dup", "drop", "close", "garbage", "stream", "stream", "shorten", "shorten", "lengthen"}
 	cs.Kind = kinds[r.Intn(len(kinds))]
 	cs.Pos = r.Intn(6)
 	cs.Mask = 1 + r.Intn(255)
